@@ -105,14 +105,24 @@ fn test(c: &Case, st: &mut Stats) -> TestResult {
             }
         }
         Case::Cuts(spec) => {
-            let m = spec.ref_wire();
-            let whole = guard(|| Message::from_bytes(&m).map(|_| ())).map_err(|p| Fail::new("c17-panic", p))?;
+            cuts_of(&spec.ref_wire(), st)?;
+            st.sample("all cuts of", 3, || spec.summary());
+        }
+    }
+    Ok(())
+}
+
+/// every strict prefix of the well-formed message `m`
+fn cuts_of(m: &[u8], st: &mut Stats) -> TestResult {
+    {
+        {
+            let whole = guard(|| Message::from_bytes(m).map(|_| ())).map_err(|p| Fail::new("c17-panic", p))?;
             if whole.is_err() {
                 st.class("whole message refused (C02/C03's business)");
                 return Ok(());
             }
-            header_relation(&m, st)?;
-            let (attrs, _) = refstun::walk(&m, m.len());
+            header_relation(m, st)?;
+            let (attrs, _) = refstun::walk(m, m.len());
             let boundaries: std::collections::HashSet<usize> = attrs.iter().map(|a| a.start).collect();
             let md = digest(&m);
             for cut in 0..m.len() {
@@ -180,7 +190,6 @@ fn test(c: &Case, st: &mut Stats) -> TestResult {
             if m.len() > 60000 {
                 st.class("message > 60000 bytes");
             }
-            st.sample("all cuts of", 3, || spec.summary());
         }
     }
     Ok(())
@@ -214,6 +223,7 @@ pub fn run(ctx: &Ctx) -> EvidenceMeta {
         items.push(Case::Header(Input::Bytes(Hex(b))));
     }
     ctx.enumerate("header-sweep", &items, test);
+    ctx.bytes_check("raw-bytes", raw_check);
     EvidenceMeta {
         rule: "well-formed messages (reference serialisation of generated builder programs, all sealing combinations, 1% with \
                65 400..65 532-byte bodies) x EVERY cut point 0..len: the prefix must be refused as Truncated with actual = cut and \
@@ -228,7 +238,25 @@ pub fn run(ctx: &Ctx) -> EvidenceMeta {
     }
 }
 
-pub fn replay(_check: &str, case: &Value, st: &mut Stats) -> Result<TestResult, String> {
+/// raw fuzz check: header-decoder relation on the buffer itself and on its repaired form, and the
+/// prefix rule on every cut of the repaired form when the reference accepts it
+fn raw_check(data: &[u8], st: &mut Stats) -> TestResult {
+    st.eval();
+    header_relation(data, st)?;
+    let b = crate::gen::repair_message(data, true);
+    header_relation(&b, st)?;
+    if b.len() <= 2048 {
+        if let crate::refstun::RefParse::Accept(_) = crate::refstun::parse(&b) {
+            return cuts_of(&b, st);
+        }
+    }
+    Ok(())
+}
+
+pub fn replay(check: &str, case: &Value, st: &mut Stats) -> Result<TestResult, String> {
+    if check == "raw-bytes" {
+        return Ok(raw_check(&crate::gen::raw_case_bytes(case)?, st));
+    }
     let c: Case = parse_case(case)?;
     Ok(test(&c, st))
 }
